@@ -283,7 +283,10 @@ AuthActs ==
    SudoChange(2), SudoChange(3), FeeChange("transfer", 0, 0), FeeAssetChange(FALSE, "alt"), FeeAssetChange(TRUE, "big"),
    IbcSudoChange(3), IbcRelayerChange(TRUE, 1), IbcRelayerChange(FALSE, 4), ValidatorUpdate(1, 5),
    Ics20Withdrawal("nria", 2, NoAcct, "e1", 1, "nria"), Ics20Withdrawal("nria", 2, 3, "e1", 1, "nria"),
-   Ics20Withdrawal("nria", 2, 4, "e2", 3, "nria"), IbcRelayBad, PairsChange, MarketsChange}
+   Ics20Withdrawal("nria", 2, 4, "e2", 3, "nria"),
+   \* "for" an account that is no bridge account at all: nobody but its owner (signing an ordinary withdrawal) may move its funds
+   Ics20Withdrawal("nria", 2, 1, "e1", 1, "nria"), Ics20Withdrawal("nria", 2, 2, "e2", 4, "nria"),
+   IbcRelayBad, PairsChange, MarketsChange}
 AuthTxs == {Tx(sg, n, <<a>>) : sg \in Acct, n \in {0, 1}, a \in AuthActs}
 
 \* "atomic": C03 — bundles failing at every index; nonces below / at / above the account nonce
